@@ -176,14 +176,15 @@ def unrounded_cu2qu_error_milli(case):
     return int(worst * 1000), measured
 
 
-def static_compile(case, glyphsets=True):
+def static_compile(case, glyphsets=True, font=None):
     """case: {cid, lib, flavor: cff|tt, ufo: abstract ufo, kwargs: {...}, expectErr: ""}
     returns one PipelineTrace record."""
     import ufo2ft
 
     lib = case.get("lib", "ufoLib2")
     flavor = case["flavor"]
-    font = absfont.build_font(case["ufo"], lib)
+    if font is None:
+        font = absfont.build_font(case["ufo"], lib)      # (else: a font object the caller obtained otherwise, e.g. an instance)
     kwargs = dict(case.get("kwargs") or {})
     kw = dict(kwargs)
     if "filters" in kw:
@@ -195,6 +196,8 @@ def static_compile(case, glyphsets=True):
     # (layerName: the glyphs of that layer are what is compiled; lib and info are the font's)
     src = absfont.abs_glyphset({g.name: g for g in (font.layers[kwargs["layerName"]] if kwargs.get("layerName") else font)})
     skip = kwargs.get("skipExportGlyphs")
+    if skip is None:
+        skip = case.get("expectSkip")
     if skip is None:
         skip = (case["ufo"].get("lib") or {}).get("public.skipExportGlyphs", [])
     rec = {
